@@ -21,6 +21,11 @@ C32  Constant propagation and code removal preserve behaviour.
      invalidation of the entry of the assigned variable.  Otherwise a value the
      variable had before (``i = 5; do i = 1, n; a(i) = i``) is substituted for a
      variable that has since been redefined.
+ R5  alternative paths start from the entry state: every body visited under
+     ``dict_override(kwargs, {'constants_map': V})`` gets ``V = deepcopy(<map at the
+     entry of the construct>)`` -- a fresh copy that is neither shared with nor
+     copied from a map an earlier body has updated (then-branch constants must
+     not be known in the else-branch).
 Not decided: constant propagation arithmetic.
 """
 import ast
@@ -139,6 +144,7 @@ def run(ctx):
     ok = f'{cn} = simplify({cn})' in ast.unparse(vc.node)
     (ctx.judge('R2', 'condition simplified before the test') if ok else ctx.note('condition is not simplified'))
     run_r4(ctx)
+    run_r5(ctx)
 
 
 CP = 'loki/transformations/constant_propagation.py'
@@ -245,7 +251,72 @@ def run_r4(ctx):
     ctx.floor('R4', 'statement-keeping exits of visit_Assignment', n_exit, 2)
 
 
+def run_r5(ctx):
+    """every alternative path of a construct is analysed from the state at the entry of the construct"""
+    m = ctx.model
+    ctx.rule('R5', 'ConstantPropagationTransformer: each body visited under `dict_override(kwargs, {constants_map: V})` gets V = deepcopy(<map at '
+                   'the entry of the construct>), a fresh copy not shared with (or copied from) the map handed to another body')
+    T = m.get_class(CP, 'ConstantPropagationTransformer')
+    n = 0
+    for mname in sorted(T.members):
+        f = T.function(mname)
+        if f is None or not mname.startswith('visit_'):
+            continue
+        entry = set(X.names_assigned_from(f.node, "kwargs.get('constants_map'")) | set(X.names_assigned_from(f.node, "kwargs['constants_map']"))
+        withs = []
+        for w in ast.walk(f.node):
+            if isinstance(w, ast.With):
+                for it in w.items:
+                    c = it.context_expr
+                    if isinstance(c, ast.Call) and X.call_name_of(c) == 'dict_override' and len(c.args) == 2 and isinstance(c.args[1], ast.Dict):
+                        for k_, v_ in zip(c.args[1].keys, c.args[1].values):
+                            if isinstance(k_, ast.Constant) and k_.value == 'constants_map':
+                                withs.append((w, v_))
+        if not withs:
+            continue
+        if not entry:
+            raise AnalysisError(f'{mname}: the constants map at the entry of the construct is not bound to a local')
+        handed = []          # names of maps already handed to a visit (and mutated by it)
+        for w, v in sorted(withs, key=lambda p_: p_[0].lineno):
+            n += 1
+            inst = f'{mname}:{ast.unparse(v)[:50]}@{sum(1 for w2, _ in withs if w2.lineno <= w.lineno)}'
+            where = f'{CP}:{w.lineno}'
+            src = v
+            via = None
+            if isinstance(v, ast.Name):
+                via = v.id
+                defs = [a.value for a in ast.walk(f.node) if isinstance(a, ast.Assign) and a.lineno < w.lineno
+                        and any(isinstance(t, ast.Name) and t.id == v.id for t in a.targets)]
+                src = defs[-1] if defs else v
+            ok = isinstance(src, ast.Call) and X.call_name_of(src) == 'deepcopy' and len(src.args) == 1 and isinstance(src.args[0], ast.Name) \
+                and src.args[0].id in entry
+            why = ''
+            if not ok:
+                arg = ast.unparse(src.args[0]) if isinstance(src, ast.Call) and src.args else ast.unparse(src)
+                why = (f'the map is `{ast.unparse(src)}`: `{arg}` is not the map at the entry of the construct' if arg not in handed else
+                       f'the map is copied from `{arg}`, which an earlier body has already updated')
+            elif via is not None and via in handed:
+                ok, why = False, f'`{via}` has already been handed to (and updated by) an earlier body'
+            if ok:
+                ctx.judge('R5', inst)
+            else:
+                ctx.violation('R5', f'{mname}:branch-state-not-from-entry', where,
+                              f'`{ast.unparse(w.items[0].context_expr)[:90]}`: {why} -- constants assigned on one path are taken as known on '
+                              f'the alternative path: `if (c) then; a = 4; else; y = a; endif` becomes `y = 4`', instance=inst)
+            if via is not None:
+                handed.append(via)
+    ctx.floor('R5', 'bodies visited with their own constants map', n, 3)
+
+
 MUTANTS = [
+    Mutant('else-branch-from-then-state', CP,
+           "        with dict_override(kwargs, {'constants_map': deepcopy(constants_map)}):\n            new_body = self.visit(o.body, **kwargs)\n            body_constants_map = kwargs['constants_map']\n        with dict_override(kwargs, {'constants_map': deepcopy(constants_map)}):",
+           "        branch_map = deepcopy(constants_map)\n        with dict_override(kwargs, {'constants_map': branch_map}):\n            new_body = self.visit(o.body, **kwargs)\n            body_constants_map = kwargs['constants_map']\n        with dict_override(kwargs, {'constants_map': deepcopy(branch_map)}):",
+           expect=('R5', 'branch-state-not-from-entry')),
+    Mutant('neutral-branch-copies-hoisted', CP,
+           "        with dict_override(kwargs, {'constants_map': deepcopy(constants_map)}):\n            new_body = self.visit(o.body, **kwargs)\n            body_constants_map = kwargs['constants_map']\n        with dict_override(kwargs, {'constants_map': deepcopy(constants_map)}):",
+           "        then_map = deepcopy(constants_map)\n        else_map = deepcopy(constants_map)\n        with dict_override(kwargs, {'constants_map': then_map}):\n            new_body = self.visit(o.body, **kwargs)\n            body_constants_map = kwargs['constants_map']\n        with dict_override(kwargs, {'constants_map': else_map}):",
+           expect=None),
     Mutant('loop-variable-not-killed', CP, "            kwargs['constants_map'].pop((o.variable.basename, ()), None)\n", "", expect=('R4', 'loop-variable-live-in-body')),
     Mutant('loop-variable-killed-after-body', CP,
            "            kwargs['constants_map'].pop((o.variable.basename, ()), None)\n            new_body = self.visit(o.body, **kwargs)\n",
